@@ -25,7 +25,8 @@ ID = "C17"
 RULE = ("Hypothesis-generated E5 sliver trees (node with SmartNIC/SharedNIC/FPGA/other components, node-level "
         "services, DedicatedPort interfaces with sub-interfaces; or a bare service / DedicatedPort interface) plus an "
         "edit script of 0-5 index-resolved edits (add/remove component, node-level service, interface, sub-interface; "
-        "set/unset labels, capacities, user data or an untracked property at any level; re-encode equal user data). "
+        "set/unset labels, capacities, user data or an untracked property at any level; re-encode equal user data; "
+        "re-create an element under its name with a new node id). "
         "B is built independently from the edited description; oracle = reference diff of the two descriptions. "
         "Non-trivial: >= 2 applied edits of different kinds. Distinct by hash of the case.")
 ASSUMPTIONS = [
@@ -59,9 +60,9 @@ _KW = dict(max_props=5, child_props=3, boost=_BOOST, simple_json=True)
 _LEVELS = {"node": ["node", "comp", "nsvc", "csvc", "ciface", "csub"],
            "service": ["csvc", "ciface", "csub"], "interface": ["ciface", "csub"]}
 _OPS = {"node": ["set", "set", "set", "reformat_ud", "add_comp", "rm_comp", "add_nsvc", "rm_nsvc", "add_iface",
-                 "rm_iface", "add_sub", "rm_sub"],
-        "service": ["set", "set", "reformat_ud", "add_iface", "rm_iface", "add_sub", "rm_sub"],
-        "interface": ["set", "set", "reformat_ud", "add_sub", "rm_sub"]}
+                 "rm_iface", "add_sub", "rm_sub", "recreate"],
+        "service": ["set", "set", "reformat_ud", "add_iface", "rm_iface", "add_sub", "rm_sub", "recreate"],
+        "interface": ["set", "set", "reformat_ud", "add_sub", "rm_sub", "recreate"]}
 _IFTYPES = ["DedicatedPort", "DedicatedPort", "SharedPort", "AccessPort", "TrunkPort", "vInt", "FacilityPort"]
 
 
@@ -90,6 +91,10 @@ def _edit(draw, mode, avail):
         return {"op": op, "lvl": lvl, "k": k, "prop": prop, "value": val}
     if op == "reformat_ud":
         return {"op": op, "lvl": draw(st.sampled_from(levels)), "k": k}
+    if op == "recreate":
+        # the element was removed and created again under its name: same name, new node id (the comparison goes by
+        # name - see ASSUMPTIONS - so whatever else differs on or below it must still be reported)
+        return {"op": op, "lvl": draw(st.sampled_from([x for x in levels if x != "node"] or levels)), "k": k}
     if op == "add_comp":
         t = draw(st.sampled_from(["SmartNIC", "SmartNIC", "SharedNIC", "FPGA", "GPU", "NVME"]))
         return {"op": op, "new": draw(E.sliver_desc("component", nid=nid, force_type=t, **_KW))}
@@ -183,6 +188,13 @@ def apply_edits(base, mode, edits):
             ud = t["props"]["user_data"]
             t["props"]["user_data"] = {"form": "text" if ud["form"] == "obj" else "obj", "v": ud["v"],
                                        "fmt": (ud.get("fmt", 0) + 1) % 3}
+            applied.append(op)
+        elif op == "recreate":
+            t = pick(lv[e["lvl"]])
+            if t is None or (e["lvl"] == "node") or t is b:
+                skipped += 1
+                continue
+            t["node_id"] = f"r{j}-" + str(t["node_id"])
             applied.append(op)
         elif op in ("add_comp", "add_nsvc"):
             if mode != "node":
@@ -456,7 +468,8 @@ def run_case(case):
             if f["added"][c] != r["removed"][c] or f["removed"][c] != r["added"][c]:
                 v.append((f"C17/{cname}.diff/antisymmetry/added-removed",
                           f"{c}: A->B {json.dumps(f)} B->A {json.dumps(r)}"))
-            if sorted(x[:2] for x in f["modified"][c]) != sorted(x[:2] for x in r["modified"][c]):
+            # (by name: an element re-created under its name carries a different node id on the two sides)
+            if sorted(x[:1] for x in f["modified"][c]) != sorted(x[:1] for x in r["modified"][c]):
                 v.append((f"C17/{cname}.diff/antisymmetry/modified",
                           f"{c}: A->B {json.dumps(f)} B->A {json.dumps(r)}"))
     # clause 5: operands untouched
